@@ -11,6 +11,15 @@ BUDGET = 400_000
 Q_MAX = 9
 
 
+def own_fnv1a32(key, seed=0):
+    h = (0x811C9DC5 + 31 * seed) & 0xFFFFFFFF
+    data = list(key) if not isinstance(key, str) else [ord(c) for c in key]
+    for b in data:
+        h ^= b
+        h = (h * 0x01000193) & 0xFFFFFFFF
+    return h
+
+
 class QuotientWorld(Scenario):
     prop = "C00"
     max_steps = 60
@@ -42,7 +51,13 @@ class QuotientWorld(Scenario):
             "uni": uni, "keyed": rng.chance(1, 3), "steps": rng.between(5, self.max_steps),
             "avoid_full": rng.chance(1, 2),
         }
-        if os.environ.get("DSIM_TIER") == "thorough" and rng.chance(1, 5):
+        if rng.chance(1, 8):
+            # library default hash (32-bit FNV-1a): the universe is what the harness's own FNV-1a gives for the keys
+            n = len(cfg["uni"])
+            cfg.update({"default_hash": True, "keyed": True, "uni": [own_fnv1a32(seams.key_of(i)) for i in range(n)]})
+        if cfg.get("default_hash"):
+            pass
+        elif os.environ.get("DSIM_TIER") == "thorough" and rng.chance(1, 5):
             # larger tables and longer histories in the thorough tier
             q = rng.choice((6, 7, 8))
             r = 32 - q
@@ -118,7 +133,10 @@ class QuotientWorld(Scenario):
             return self.key_hash.get(key, 0x5EED1234)
 
         self.hf = hf
-        self.f = QuotientFilter(quotient=cfg["q"], auto_expand=cfg["auto_expand"], hash_function=hf)
+        if cfg.get("default_hash"):
+            self.hf = None
+            self.ctx.probe("library_default_hash")
+        self.f = QuotientFilter(quotient=cfg["q"], auto_expand=cfg["auto_expand"], hash_function=self.hf)
         self.f.max_load_factor = cfg["mlf"]
         self.auto = cfg["auto_expand"]
         self.mlf = cfg["mlf"]
@@ -244,7 +262,7 @@ class QuotientWorld(Scenario):
                 return "skip"
             if cfg["avoid_full"] and not self.auto and len(union) >= f.size:
                 return "skip"
-            second = self.QF(quotient=step["q"], auto_expand=True, hash_function=self.hf)
+            second = self.QF(quotient=step["q"], auto_expand=True, hash_function=self.hf)  # None = library default
             for h in items:
                 second.add_alt(h)
             st, v = self.call(lambda: f.merge(second), "merge")
